@@ -295,8 +295,15 @@ func (c *ShipConnection) HandleIncomingWebsocketMessage(message []byte) {
 	c.dataReader.HandleShipPayloadMessage([]byte(data.Data.Payload))
 }
 
-// checks wether the provided messages is a SHIP message
+// checks wether the provided messages is a SHIP data message carrying a SPINE datagram
+//
+// Only messages of type data can carry one: a control message that merely contains
+// the word (e.g. a SHIP ID like "datagram-logger") is a SHIP message
 func (c *ShipConnection) hasSpineDatagram(message []byte) bool {
+	if len(message) == 0 || message[0] != model.MsgTypeData {
+		return false
+	}
+
 	return bytes.Contains(message, []byte("datagram"))
 }
 
